@@ -189,7 +189,13 @@ func c16Client(c *Ctx) {
 	}
 	c.SetPlan("first_handshake", initFault)
 	httpReqs := 0
-	s.Net.OnConn = func(conn *sim.Conn) { httpReqs++ }
+	s.Net.OnConn = func(conn *sim.Conn) {
+		// only requests sent by the task that performs the operations count: the listening stream a
+		// successful handshake opens in the background is not traffic of a later operation
+		if conn.Client == "root" {
+			httpReqs++
+		}
+	}
 	seenPosts := 0
 	armed := true
 	s.Net.Script = func(conn *sim.Conn) *sim.Outcome {
